@@ -19,7 +19,9 @@ class Default:
         self.subType = subType
         self.componentID = componentID
         self.dataLength = sectionLen - 8
-        self.data = self.stream.get_mem(self.dataLength)
+        # A section may legitimately have no payload at all
+        self.data = self.stream.get_mem(self.dataLength) \
+            if self.dataLength != 0 else bytes()
 
     def toJSON(self) -> OrderedDict:
 
